@@ -26,6 +26,8 @@ func runC09(c *Ctx) {
 	c09Prefix(c)
 	c09Preproc(c)
 	c09RangePoint(c)
+	handoverRule(c, "C09.handover", "dnsdata")
+	c09V4Predicate(c, "C09")
 }
 
 // relPath: access path of an address relative to the receiver root name ("" if not rooted there).
@@ -861,4 +863,75 @@ func c09Numeric(c *Ctx) {
 	if nStr == 0 {
 		c.Undecided(rule, "floor", token.NoPos, fmt.Sprintf("%d formatted values examined, none of a Stringer-typed numeric kind (the generic record's type field was expected)", n))
 	}
+}
+
+// c09V4Predicate implements <prop>.v4-predicate: the text form of a range point subtracts 96 from the prefix length
+// exactly when the address "is IPv4", while the address itself is printed and re-parsed by package net, which calls
+// an address IPv4 only if all of its first 12 bytes match ::ffff:0:0/96. A private predicate that looks at fewer
+// bytes disagrees with net on addresses such as 2001:db8::ffff:0:0 and the text no longer round-trips.
+func c09V4Predicate(c *Ctx, prop string) {
+	rule := prop + ".v4-predicate"
+	c.Rule(rule, "every function of package dnsdata that turns a 16-byte address array into a net.IP \"if it is IPv4\" (result net.IP, receiver or parameter [16]byte) returns a non-nil result only through net.IP.To4, or under comparisons of all of the first 12 bytes of the array")
+	n := 0
+	for _, fn := range c.OurFuncs("dnsdata") {
+		if fn.Signature.Results().Len() != 1 || fn.Signature.Results().At(0).Type().String() != "net.IP" {
+			continue
+		}
+		var arr *ssa.Parameter
+		for _, p := range fn.Params {
+			if at, ok := p.Type().Underlying().(*types.Array); ok && at.Len() == 16 {
+				arr = p
+			}
+		}
+		if arr == nil || !strings.Contains(fn.Name(), "4") {
+			continue
+		}
+		n++
+		c.Examined(fn)
+		for i, ret := range returnsOf(fn) {
+			if isNilConst(ret.Results[0]) {
+				continue
+			}
+			viaNet := false
+			for v := range backSlice(ret.Results[0], nil) {
+				if call, ok := v.(*ssa.Call); ok {
+					if f := calleeOf(call.Common()); f != nil && f.Pkg() != nil && f.Pkg().Path() == "net" && funcShort(f) == "IP.To4" {
+						viaNet = true
+					}
+				}
+			}
+			if viaNet {
+				c.Check(rule, fmt.Sprintf("%s|return#%d", fnName(fn), i), true, ret.Pos(), "decided by net.IP.To4")
+				continue
+			}
+			idx := map[int64]bool{}
+			for _, cond := range controlConds(ret.Block()) {
+				for v := range backSliceCtl(cond) {
+					var base ssa.Value
+					var ix ssa.Value
+					switch x := v.(type) {
+					case *ssa.IndexAddr:
+						base, ix = x.X, x.Index
+					case *ssa.Index:
+						base, ix = x.X, x.Index
+					default:
+						continue
+					}
+					if k, isK := constInt(ix); isK && backSlice(base, nil)[arr] || base == ssa.Value(arr) {
+						if isK {
+							idx[k] = true
+						}
+					}
+				}
+			}
+			all := true
+			for k := int64(0); k < 12; k++ {
+				if !idx[k] {
+					all = false
+				}
+			}
+			c.Check(rule, fmt.Sprintf("%s|return#%d", fnName(fn), i), all, ret.Pos(), fmt.Sprintf("prefix bytes examined before declaring the address IPv4: %d of 12", len(idx)))
+		}
+	}
+	c.Floor(rule, 1)
 }
